@@ -144,6 +144,9 @@ def _run(ctx):
     offer_ai = ret_ai = None
     for x in divs:
         rs = set(ctx.roots(x[4][0]))
+        for y in common.walk(x[4][0]):
+            if y[0] in ("param", "proj"):
+                rs |= set(ctx.roots(y))        # through an unconditional `amount.checked_mul(scale)`
         for a in assets:
             if P_(g, a, ".amount") in rs:
                 offer_ai = a
@@ -153,6 +156,8 @@ def _run(ctx):
     ret_ai = [a for a in assets if a != offer_ai][0]
     # decimals: the one paired with the offer in the Greater branch scaling. Determine by U1 below; provisional: cmp(od, rd) arguments order
     cmps = [(b, P.val_call(g, gbody, b)) for b, p, fr, t in P.calls(g) if p and common.last_seg(p) == "cmp"]
+    u8roots = {P_(g, k_) for k_ in u8s}
+    cmps = [(b, v_) for b, v_ in cmps if len(v_[4]) == 2 and set(ctx.roots(v_[4][0])) | set(ctx.roots(v_[4][1])) <= u8roots]      # other `cmp` calls compare amounts
     if len(cmps) != 1:
         u1.fail("C10.U1:cmp", g.path, g.span, "expected one Ordering comparison of the two decimals, found %d: unrecognised-idiom" % len(cmps))
         return
@@ -179,56 +184,121 @@ def _run(ctx):
                 if br:
                     tuples[br] = (b, v)
     if sorted(tuples) != ["Equal", "Greater", "Less"]:
-        u1.fail("C10.U1:branches", g.path, g.span, "normalised (offer, return, spread) tuples found for branches %s, expected Greater/Less/Equal" % sorted(tuples))
-        return
-    # try both assignments of (od, rd) to the u8 parameters: the consistent one defines the roles
-    consistent = None
-    reports = {}
-    for od_i, rd_i in ((int(m0.group(1)), int(m1.group(1))), (int(m1.group(1)), int(m0.group(1)))):
-        base = {P_(g, offer_ai, ".amount"): {"od": 1, "rd": 0}, P_(g, ret_ai, ".amount"): {"od": 0, "rd": 1}, P_(g, sp_i): {"od": 0, "rd": 1}}
-        ok = True
-        rep = []
-        for br, (b, v) in sorted(tuples.items()):
-            exps = [exponent_of(ctx, g, x, od_i, rd_i, base) for _, x in v[3]]
-            # which source does each component have
-            srcs = []
-            for _, x in v[3]:
-                rs = set()
-                for y in common.walk(x):
-                    rs |= set(ctx.roots(y)) if y[0] in ("param", "proj") else set()
-                srcs.append("offer" if P_(g, offer_ai, ".amount") in rs else "return" if P_(g, ret_ai, ".amount") in rs else "spread" if P_(g, sp_i) in rs else "?")
-            if srcs != ["offer", "return", "spread"]:
-                ok = False
-                rep.append((br, b, "components are (%s), expected (offer, return, spread)" % ", ".join(srcs)))
-                continue
-            if None in exps:
-                ok = False
-                rep.append((br, b, "a component's scaling is not `amount * 10^(p - q)`: unrecognised-idiom"))
-                continue
-            if br == "Equal":
-                # od == rd on this branch: compare total weights
-                exps = [{"od": e["od"] + e["rd"], "rd": 0} for e in exps]
-            if not (exps[0] == exps[1] == exps[2]):
-                ok = False
-                rep.append((br, b, "offer', return', spread' carry exponents %s: they are compared / added / divided with different decimal scales" % (
-                    ["%dod%+drd" % (e["od"], e["rd"]) for e in exps])))
-            else:
-                rep.append((br, b, None))
-        reports[(od_i, rd_i)] = (ok, rep)
-        if ok:
-            consistent = (od_i, rd_i)
-    if consistent is None:
-        # report against the positional reading (first u8 = offer decimals)
-        ok, rep = reports[(u8s[0], u8s[1])] if (u8s[0], u8s[1]) in reports else list(reports.values())[0]
-        for br, b, why in rep:
-            if why:
-                u1.fail("C10.U1:%s" % br, g.path, common.span_of_block_term(g, b), "branch %s: %s" % (br, why))
-        od_i, rd_i = u8s[0], u8s[1]
-    else:
-        od_i, rd_i = consistent
-        for br, b, why in reports[consistent][1]:
-            u1.site("branch %s: offer', return', spread' all carry exponent max(od, rd)" % br)
-        # the branch with od > rd must be the one scaling return/spread: sub exponent p-q with p the larger => no underflow
+        # scale form: the `match cmp` only yields the scale factors; offer, return and spread are each multiplied once,
+        # unconditionally, by a factor whose value depends on the branch.  Evaluate every factor per branch.
+        sw_ = [b for b, blk in enumerate(gbody.blocks) if not blk["cleanup"] and blk["term"]["k"] == "switch" and
+               (common.switch_cond(P, g, b) or (None,))[0] == "discr" and "|".join(sorted(ctx.roots(common.switch_cond(P, g, b)[1]))) == CMP]
+        srcroots = {"offer": P_(g, offer_ai, ".amount"), "return": P_(g, ret_ai, ".amount"), "spread": P_(g, sp_i)}
+        muls = {}
+        for b, p, fr, t in P.calls(g):
+            if p and common.last_seg(p) == "checked_mul":
+                mv = P.val_call(g, gbody, b)
+                for nm, rt in srcroots.items():
+                    if set(ctx.roots(mv[4][0])) == {rt}:
+                        muls.setdefault(nm, []).append(b)
+        ok_form = len(sw_) == 1 and sorted(muls) == ["offer", "return", "spread"] and all(len(v_) == 1 for v_ in muls.values())
+        if ok_form:
+            t_ = gbody.blocks[sw_[0]]["term"]
+            ty_ = common.discr_place_ty(g, sw_[0])
+            arms_ = {common.variant_name(P, ty_, val): tb for val, tb in t_["arms"]}
+            rest_ = [x for x in ("Greater", "Less", "Equal") if x not in arms_]
+            if len(rest_) == 1 and gbody.blocks[t_["otherwise"]]["term"]["k"] != "unreachable":
+                arms_[rest_[0]] = t_["otherwise"]
+            ok_form = sorted(arms_) == ["Equal", "Greater", "Less"] and all(
+                not any(c_["sw"] == sw_[0] for c_ in common.control_conditions(P, g, bs_[0])) for bs_ in muls.values())
+        if not ok_form:
+            u1.fail("C10.U1:branches", g.path, g.span, "normalised (offer, return, spread) tuples found for branches %s, expected Greater/Less/Equal" % sorted(tuples))
+            return
+        m0i, m1i = int(m0.group(1)), int(m1.group(1))
+        verdicts = {}
+        for od_i, rd_i in ((m0i, m1i), (m1i, m0i)):
+            good = True
+            why_ = []
+            for br, tb in sorted(arms_.items()):
+                region = common.region_of_edge(gbody, (sw_[0], tb))
+                exps = {}
+                for nm in ("offer", "return", "spread"):
+                    mb = muls[nm][0]
+                    opnd = gbody.blocks[mb]["term"]["args"][1]
+                    sv_ = P.val_operand_in(g, (mb, len(gbody.blocks[mb]["stmts"])), opnd, region)
+                    x_ = sv_
+                    while x_[0] == "cast" or (x_[0] == "call" and isinstance(x_[3], str) and common.transparent_arg(x_[3]) == 0):
+                        x_ = x_[2] if x_[0] == "cast" else x_[4][0]
+                    sc = {"od": 0, "rd": 0} if x_ == ("const", "int", 1) else scale_exponent(ctx, g, sv_, od_i, rd_i)
+                    if sc is None:
+                        good = False
+                        why_.append((br, mb, "the %s factor on this branch is neither 1 nor 10^(p - q): unrecognised-idiom" % nm))
+                        continue
+                    base_ = {"offer": {"od": 1, "rd": 0}, "return": {"od": 0, "rd": 1}, "spread": {"od": 0, "rd": 1}}[nm]
+                    exps[nm] = {k_: base_[k_] + sc[k_] for k_ in ("od", "rd")}
+                if len(exps) == 3:
+                    es = [exps["offer"], exps["return"], exps["spread"]]
+                    if br == "Equal":
+                        es = [{"od": e_["od"] + e_["rd"], "rd": 0} for e_ in es]
+                    if not (es[0] == es[1] == es[2]):
+                        good = False
+                        why_.append((br, muls["spread"][0], "offer', return', spread' carry exponents %s: they are compared / added / divided with different decimal scales" % (es,)))
+            verdicts[(od_i, rd_i)] = (good, why_)
+        goods = [k_ for k_, (g_, w_) in verdicts.items() if g_]
+        if not goods:
+            for br, b_, why in verdicts[(m0i, m1i)][1]:
+                u1.fail("C10.U1:%s" % br, g.path, common.span_of_block_term(g, b_), "branch %s: %s" % (br, why))
+            od_i, rd_i = u8s[0], u8s[1]
+        else:
+            od_i, rd_i = goods[0]
+            for br in ("Equal", "Greater", "Less"):
+                u1.site("branch %s: offer', return', spread' all carry exponent max(od, rd) (scale-factor form)" % br)
+        consistent = (od_i, rd_i)
+        tuples = None
+    if tuples is not None:
+        # try both assignments of (od, rd) to the u8 parameters: the consistent one defines the roles
+        consistent = None
+        reports = {}
+        for od_i, rd_i in ((int(m0.group(1)), int(m1.group(1))), (int(m1.group(1)), int(m0.group(1)))):
+            base = {P_(g, offer_ai, ".amount"): {"od": 1, "rd": 0}, P_(g, ret_ai, ".amount"): {"od": 0, "rd": 1}, P_(g, sp_i): {"od": 0, "rd": 1}}
+            ok = True
+            rep = []
+            for br, (b, v) in sorted(tuples.items()):
+                exps = [exponent_of(ctx, g, x, od_i, rd_i, base) for _, x in v[3]]
+                # which source does each component have
+                srcs = []
+                for _, x in v[3]:
+                    rs = set()
+                    for y in common.walk(x):
+                        rs |= set(ctx.roots(y)) if y[0] in ("param", "proj") else set()
+                    srcs.append("offer" if P_(g, offer_ai, ".amount") in rs else "return" if P_(g, ret_ai, ".amount") in rs else "spread" if P_(g, sp_i) in rs else "?")
+                if srcs != ["offer", "return", "spread"]:
+                    ok = False
+                    rep.append((br, b, "components are (%s), expected (offer, return, spread)" % ", ".join(srcs)))
+                    continue
+                if None in exps:
+                    ok = False
+                    rep.append((br, b, "a component's scaling is not `amount * 10^(p - q)`: unrecognised-idiom"))
+                    continue
+                if br == "Equal":
+                    # od == rd on this branch: compare total weights
+                    exps = [{"od": e["od"] + e["rd"], "rd": 0} for e in exps]
+                if not (exps[0] == exps[1] == exps[2]):
+                    ok = False
+                    rep.append((br, b, "offer', return', spread' carry exponents %s: they are compared / added / divided with different decimal scales" % (
+                        ["%dod%+drd" % (e["od"], e["rd"]) for e in exps])))
+                else:
+                    rep.append((br, b, None))
+            reports[(od_i, rd_i)] = (ok, rep)
+            if ok:
+                consistent = (od_i, rd_i)
+        if consistent is None:
+            # report against the positional reading (first u8 = offer decimals)
+            ok, rep = reports[(u8s[0], u8s[1])] if (u8s[0], u8s[1]) in reports else list(reports.values())[0]
+            for br, b, why in rep:
+                if why:
+                    u1.fail("C10.U1:%s" % br, g.path, common.span_of_block_term(g, b), "branch %s: %s" % (br, why))
+            od_i, rd_i = u8s[0], u8s[1]
+        else:
+            od_i, rd_i = consistent
+            for br, b, why in reports[consistent][1]:
+                u1.site("branch %s: offer', return', spread' all carry exponent max(od, rd)" % br)
+            # the branch with od > rd must be the one scaling return/spread: sub exponent p-q with p the larger => no underflow
     # ---- R1 wiring in the swap handler ---------------------------------------------------------------------------
     sv = P.val_call(swap, body, gb)
     offer_i = common.param_index_of_type(swap, "^%s$" % ctx.N.rx("Asset"))
@@ -442,3 +512,68 @@ def run(ctx):
     from .. import numeric
     _run(ctx)
     numeric.arith_base(ctx, "C10.B1")
+    abort_freedom(ctx)
+
+
+def abort_freedom(ctx):
+    """C10.A1: the guard itself never aborts on a subtraction — `a - b` (256-bit operator or the u8 decimals difference) is
+    only evaluated where the path conditions state a > b or a >= b for these very operands.  An abort inside the guard
+    refuses the swap just like a rejection does, so it counts against the completeness clause."""
+    P = ctx.P
+    a1 = ctx.inst("C10.A1", "no aborting subtraction in the spread guard: every `a - b` is dominated by a comparison stating a > b / a >= b of the same operands", floor=2)
+    try:
+        pr = roles.PairRoles(P)
+        gb, g = spread_guard(P, pr)
+    except AnchorMissing as e:
+        a1.fail("C10.A1:anchor", "-", "-", "anchor-missing: %s" % e)
+        return
+    body = g.body
+
+    def facts(b):
+        out = []
+        for c in common.control_conditions(P, g, b):
+            cd = c["cond"]
+            if cd[0] == "cmp" and cd[1] in ("lt", "le", "gt", "ge") and len(cd[2]) == 2 and len(c["allowed"]) == 1 and c["allowed"][0] in (True, False):
+                x, y = cd[2]
+                kind = cd[1]
+                if kind in ("lt", "le"):
+                    x, y = y, x
+                    kind = {"lt": "gt", "le": "ge"}[kind]
+                if not c["allowed"][0]:
+                    x, y = y, x
+                    kind = {"gt": "ge", "ge": "gt"}[kind]
+                out.append((frozenset(ctx.roots(x)), frozenset(ctx.roots(y))))
+            elif cd[0] == "discr" and cd[1][0] == "call" and isinstance(cd[1][3], str) and common.last_seg(cd[1][3]) == "cmp" and len(cd[1][4]) == 2:
+                x, y = cd[1][4]
+                al = set(c["allowed"])
+                if al and al <= {"Greater", "Equal"}:
+                    out.append((frozenset(ctx.roots(x)), frozenset(ctx.roots(y))))
+                elif al and al <= {"Less", "Equal"}:
+                    out.append((frozenset(ctx.roots(y)), frozenset(ctx.roots(x))))
+        return out
+    subs = []
+    for b, p, fr, t in P.calls(g):
+        if p and re.search(r"ops::(arith::)?Sub(<[^>]*>)?>::sub$", p):
+            v = P.val_call(g, body, b)
+            subs.append((b, v[4][0], v[4][1], common.span_of_block_term(g, b)))
+    for b, blk in enumerate(body.blocks):
+        if blk["cleanup"]:
+            continue
+        for i, st in enumerate(blk["stmts"]):
+            if st["k"] == "assign" and st["rv"]["k"] == "binop" and st["rv"].get("op") in ("Sub", "SubWithOverflow", "SubUnchecked") and "!x" not in st.get("span", ""):
+                x = P.val_operand(g, (b, i), st["rv"]["a"], body)
+                y = P.val_operand(g, (b, i), st["rv"]["b"], body)
+                subs.append((b, x, y, st["span"]))
+    for b, x, y, span in subs:
+        rx, ry = frozenset(ctx.roots(x)), frozenset(ctx.roots(y))
+        if (rx, ry) in facts(b):
+            a1.site("%s: %s - %s evaluated only under %s >= %s" % (span.replace("!x", "").split("/")[-1], sorted(rx)[0][-40:], sorted(ry)[0][-40:], sorted(rx)[0][-40:], sorted(ry)[0][-40:]))
+        else:
+            a1.fail("C10.A1:unguarded-sub:%s-%s" % ("|".join(sorted(rx))[-60:], "|".join(sorted(ry))[-60:]), g.path, span.replace("!x", ""),
+                    "`%s - %s` can abort: no comparison of these operands (a > b, a >= b, or a `cmp` arm) is found on the way to it — a swap within the caller's bounds would fail instead of succeeding (if the operands are ordered by other means: unrecognised-idiom)" % (ctx.show(x, 3), ctx.show(y, 3)))
+    # the decimals the guard normalises with are the pair's stored decimals: written at instantiation and by the factory-only
+    # update, which replaces them by the factory's array exactly for the re-registered denom (a wrong slot skews every later swap)
+    from .. import compose
+    from . import c17
+    r3 = ctx.inst("C10.R3", "stored asset_decimals stay the true decimals: the pair-side update applies the factory's array under the right condition and keeps the record otherwise (shared with C17.R5)", floor=3)
+    compose.pull(ctx, r3, c17, {"C17.R5"}, "C10.R3", key_rx=r":(decimals|assignment-shape|any-predicate|loop-shape|condition|save-order|field:asset_infos|anchor|floor)")
